@@ -30,6 +30,8 @@ EXPLANATION = (
 # `new()` is a pure single-path function in the `unstable` arm and is then rendered by value
 NEWV = r"(CircularBuffer::new\(\)|CircularBuffer::CircularBuffer\{size: 0, start: 0, items: [^}]*\})"
 
+CTORS = {"CircularBuffer::new", "CircularBuffer::boxed", "<CircularBuffer<N, T> as From<[T; M]>>::from"}
+
 SAFE_FNS = [
     "<CircularBuffer<N, T> as Clone>::clone", "<CircularBuffer<N, T> as Clone>::clone_from", "CircularBuffer::to_vec",
     "<CircularBuffer<N, T> as FromIterator<T>>::from_iter", "<CircularBuffer<N, T> as FromIterator<T>>::from_iter::{closure#0}",
@@ -62,7 +64,7 @@ def run(ctx, progs):
         safe1(ctx, prog, cfg)
         clonepath1(ctx, prog, cfg)
         fromarr1(ctx, prog, cfg)
-        c05.ps2(ctx, prog, cfg)
+        c05.ps2(ctx, prog, cfg, only=CTORS)
         c08.into1(ctx, prog, cfg)
 
 
@@ -123,4 +125,5 @@ def clonepath1(ctx, prog, cfg):
 
 def fromarr1(ctx, prog, cfg):
     c03.owner1_from(ctx, prog, cfg, "FROMARR1")
-    c04.inv1(ctx, prog, cfg)  # header of the constructed buffer: start = 0, size = join of {M, N} each <= N
+    # header of the constructed buffers: start = 0, size = 0 resp. join of {M, N} each <= N
+    c04.inv1(ctx, prog, cfg, only=CTORS)
